@@ -265,3 +265,86 @@ Definition HydFresh : Prop :=
   forall h, has_node g' h = true -> has_node g h = false -> forall k, has_node g k = true -> k < h.
 Definition HydSyms : Prop :=
   forall g g', Base.NXFacts.wf g -> has_syms g -> add_implicit_hydrogens g = Some g' -> has_syms g'.
+
+(** * The input class of the known finding KF-C05-descendant (class=partial-group-atoms-descendant)
+
+    Literal form: some group X has a hetero pattern position (not the wildcard, not C / H) that is
+    not in its group_atoms, and some embedding of X's pattern into the pattern of a descendant D sends
+    that position onto a group atom of D.  Broad form (the witness path is statically open): reading
+    the pattern of a descendant D of a group N as a molecule, N is witnessed on a group atom u of D
+    that is not C / H (a wildcard position listed in group_atoms counts) while no child of N on a
+    path to D is.  In both cases the descent of __find_best_node_rec can
+    stop above D on an atom on which D is witnessed.  Decided by the kernel in every case file, so
+    that a failing descendant clause is attributed to the finding only inside the class; the default
+    configuration is outside both forms (Props/C05.v, C05_default_outside_finding_class). *)
+Definition is_wildcard_sym (w : option string) (ic : bool) (s : option string) : bool :=
+  match w, s with
+  | Some w', Some s' => String.eqb (fold_case ic s') (fold_case ic w')
+  | _, _ => false
+  end.
+
+(* a position that can anchor a group: neither the wildcard nor one of the excluded symbols C / H *)
+Definition hetero_pos (w : option string) (ic : bool) (P : graph) (p : Z) : bool :=
+  if is_wildcard_sym w ic (sym_of P p) then false else negb (sym_in (sym_of P p) candidate_excluded).
+
+(* literal form: X has a hetero pattern position p outside group_atoms, and some embedding of X's
+   pattern into the pattern of a descendant D sends p onto a group atom of D *)
+Definition omits_listed_positionb (w : option string) (ic : bool) (x d : fgconfig) : bool :=
+  anyb (fun p =>
+          if zmem p (fg_group_atoms x) then false
+          else if hetero_pos w ic (fg_pattern x) p
+               then anyb (fun u => anchored_embb w ic (fg_pattern d) (fg_pattern x) (fun _ => true) u p) (group_nodes d)
+               else false)
+       (nodes (fg_pattern x)).
+
+Definition over_tree_pairs (tr : tree (A := fgconfig)) (f : nat -> fgconfig -> nat -> fgconfig -> bool) : bool :=
+  let ns := t_nodes tr in
+  anyb (fun i =>
+          match nth_error ns i with
+          | Some ndx =>
+              anyb (fun j => match nth_error ns j with
+                             | Some ndd => f i (n_cfg ndx) j (n_cfg ndd)
+                             | None => false
+                             end)
+                   (descendants (List.length ns) ns i)
+          | None => false
+          end)
+       (seq 0 (List.length ns)).
+
+Definition partial_group_atoms_classb (w : option string) (ic : bool) (tr : tree (A := fgconfig)) : bool :=
+  over_tree_pairs tr (fun _ x _ d => omits_listed_positionb w ic x d).
+
+(* broad form (static failure of witness_path_closed): reading the pattern of a descendant D of N as
+   a molecule, N is witnessed on a non-C/H group atom u of D but no child of N on a path to D is *)
+Definition path_open_classb (w : option string) (ic : bool) (tr : tree (A := fgconfig)) : bool :=
+  let ns := t_nodes tr in
+  over_tree_pairs tr (fun i n j d =>
+    anyb (fun u =>
+            (* u can anchor a group: not C / H; a wildcard position listed as group atom counts *)
+            if negb (sym_in (sym_of (fg_pattern d) u) candidate_excluded) then
+              if witnessedb w ic (fg_pattern d) n u then
+                negb (anyb (fun c => if (c =? j)%nat || nat_mem j (descendants (List.length ns) ns c)
+                                     then match nth_error ns c with
+                                          | Some ndc => witnessedb w ic (fg_pattern d) (n_cfg ndc) u
+                                          | None => false
+                                          end
+                                     else false)
+                           (children_of ns i))
+              else false
+            else false)
+         (group_nodes d)).
+
+(* the class of KF-C05-descendant: the literal form or the broad form *)
+Definition kf_descendant_classb (w : option string) (ic : bool) (tr : tree (A := fgconfig)) : bool :=
+  if partial_group_atoms_classb w ic tr then true else path_open_classb w ic tr.
+
+(* check "descendant_unattributed": the full descendant clause holds, or its failure is attributable
+   to the known finding: the configuration is in the class AND the model reproduces the
+   implementation's answer ([agree]) *)
+Definition C05_desc_attrib_okb (mp : mapper) (rt : res (tree (A := fgconfig))) (req_h : bool) (g : graph)
+                               (out : res groups) (agree : bool) : bool :=
+  if C05_tree_okb true mp rt req_h g out then true
+  else match rt with
+       | Good tr => if kf_descendant_classb (m_wildcard mp) (m_ignore_case mp) tr then agree else false
+       | Bad _ => false
+       end.
